@@ -100,6 +100,19 @@ impl BytesMut {
         ensures r.0@ == old(self)@.take(mid as int), r.1@ == old(self)@.skip(mid as int),
             final(self)@ == final(r.0)@ + final(r.1)@
     { unimplemented!() }
+    /// `BufMut::advance_mut` (unsafe: exposes `n` bytes of spare capacity as initialised): the buffer grows by `n` bytes of unspecified content.
+    /// The capacity part of its safety condition (a preceding `reserve`) is NOT modelled.
+    #[verifier::external_body]
+    pub unsafe fn advance_mut(&mut self, n: usize)
+        ensures final(self)@.len() == old(self)@.len() + n, final(self)@.take(old(self)@.len() as int) == old(self)@
+    { unimplemented!() }
+    /// R25: `&mut buf[lo..hi]` through DerefMut
+    #[verifier::external_body]
+    pub fn v_range_mut(&mut self, lo: usize, hi: usize) -> (r: &mut [u8])
+        requires lo <= hi <= old(self)@.len()
+        ensures r@ == old(self)@.subrange(lo as int, hi as int),
+            final(self)@ == old(self)@.take(lo as int) + final(r)@ + old(self)@.skip(hi as int), final(r)@.len() == r@.len()
+    { unimplemented!() }
     #[verifier::external_body]
     pub fn freeze(self) -> (r: Bytes) ensures r@ == self@ { unimplemented!() }
     #[verifier::external_body]
@@ -224,6 +237,12 @@ impl<T: CursorInner> Cursor<T> {
 #[verifier::external_body]
 pub proof fn axiom_cursor_dropped<'a>(c: &Cursor<&'a mut BytesMut>) ensures final(c.inner())@ == (*c.inner())@ {}
 
+/// R25: `x = &mut x[lo..]` on a mutable slice variable: the slice is handed back without its first `lo` bytes; the bytes cut off keep their value
+#[verifier::external_body]
+pub fn verif_reslice_mut<'a>(s: &'a mut [u8], lo: usize) -> (r: &'a mut [u8])
+    requires lo <= old(s)@.len()
+    ensures r@ == old(s)@.skip(lo as int), final(s)@ == old(s)@.take(lo as int) + final(r)@, final(r)@.len() == r@.len()
+{ unimplemented!() }
 /// what `BytesMut::from` accepts in the extracted code (From<Bytes>, From<&[u8]>)
 pub trait BmSource { spec fn bm_src(&self) -> Seq<u8>; }
 impl BmSource for Bytes { open spec fn bm_src(&self) -> Seq<u8> { self@ } }
